@@ -27,6 +27,10 @@ def _force_2d_filter(run_seed, filt):
             sc['knobs']['sigmas'][0] *= f
             sc['knobs']['init_err'][:3] = [x * f for x in sc['knobs']['init_err'][:3]]
             sc['faults'].append(dict(kind='coarse_initial_position', factor=float(f)))
+        for j, sen in enumerate(sc['sensors']):
+            # the caller's measurement table with its columns in another order / with
+            # extra columns (tables are addressed by label)
+            sen['table_form'] = [None, 'reversed', 'rotated', 'wide'][(r_seed + k + j) % 4]
         try:
             if FW.materialise(sc, fence_only=True)['in_fence']:
                 return sc
@@ -65,6 +69,33 @@ def execute(sc):
     out = FW.run_filter(sc, m)
     viol = sched.check_c13_filter(sc, m, out)
     probes = {sc['filter'] + '_filter_runs': 1}
+    if any(sen.get('table_form') for sen in sc['sensors']):
+        probes['measurement_table_columns_reordered_or_extra'] = 1
+    if not viol and out.error_class is None and \
+            any(sen['cls'] == 'NedVelocity' and sen['stamps'] for sen in sc['sensors']):
+        # "NED-velocity measurement models drop their vertical row": a twin run in which
+        # the MEASURED vertical velocity is replaced by other numbers must give
+        # bit-identical results
+        import copy
+        twin = copy.deepcopy(sc)
+        for sen in twin['sensors']:
+            sen['vertical_scramble'] = True
+        m2 = FW.materialise(twin)
+        out2 = FW.run_filter(twin, m2)
+        probes['vertical_measurement_scrambled_twin'] = 1
+        if out2.error_class is not None:
+            viol.append(sched.V('vertical-row-used', "the twin run with scrambled measured VD "
+                                f"did not return: {out2.error}", 'filter/vertical-row-used'))
+        else:
+            for name in ['trajectory'] + sched.SD_TABLES:
+                a, b = getattr(out.result, name), getattr(out2.result, name)
+                if a.shape != b.shape or not sched.same_bits(a.to_numpy(), b.to_numpy()):
+                    viol.append(sched.V(
+                        'vertical-row-used',
+                        f"{sc['filter']} filter: replacing the measured vertical velocity of "
+                        f"the NedVelocity samples changes {name} - the 2-D model does not "
+                        f"drop the vertical row", 'filter/vertical-row-used'))
+                    break
     n_used = 0
     for s, obj in zip(sc['sensors'], m['measurements']):
         k = sum(1 for (_t, shp) in obj.spy_log if shp is not None)
@@ -98,7 +129,9 @@ def sample_view(sc):
 
 PROBES_WANTED = ['history_runs', 'overwrite_then_integrate', 'large_vertical_specific_force',
                  'predict_rows_checked', 'feedback_filter_runs', 'feedforward_filter_runs',
-                 'meas_Position', 'meas_NedVelocity', 'meas_BodyVelocity']
+                 'meas_Position', 'meas_NedVelocity', 'meas_BodyVelocity',
+                 'measurement_table_columns_reordered_or_extra',
+                 'vertical_measurement_scrambled_twin']
 
 
 def describe():
@@ -110,7 +143,9 @@ def describe():
               "recently supplied. 2 of 8 runs: the C09/C10 sensor world through the REAL "
               "feedback / feedforward filter - feedback trajectory VD == 0 and alt == "
               "initial alt in every row, trajectory_sd.down and .VD exactly 0, spy log shows "
-              "2-row Position/NedVelocity and 3-row BodyVelocity models with 7 columns. "
+              "2-row Position/NedVelocity and 3-row BodyVelocity models with 7 columns; "
+              "measurement tables also with reordered / extra columns; a metamorphic twin run "
+              "with the measured vertical velocity replaced must be bit-identical. "
               "Non-trivial = produced at least one checked row. distinct = distinct "
               "history / interleaving signatures."),
         real=['pyins.strapdown.Integrator + numba kernel', 'pyins.filters (both filters)',
